@@ -58,7 +58,7 @@ impl<'a> VLookupSpan<'a> for VRoot {
     }
     fn register_filter(&mut self) -> VFilterId { let id = VFilterId::new(self.next_filter); self.next_filter += 1; id }
 }
-pub(crate) static VROOT_EVENTS: VAtomicUsize = VAtomicUsize::new(0);
+vstatic!(pub(crate) VROOT_EVENTS: VAtomicUsize = VAtomicUsize::new(0));
 impl VCollect for VRoot {
     // the three FilterState-facing lines of the real Registry (sharded.rs enabled / event_enabled / register_callsite)
     fn register_callsite(&self, _: &'static VMetadata<'static>) -> VInterest {
@@ -83,7 +83,7 @@ impl VRoot {
 pub(crate) const VK_EVENT: usize = 0; pub(crate) const VK_NEW_SPAN: usize = 1; pub(crate) const VK_ENTER: usize = 2; pub(crate) const VK_EXIT: usize = 3;
 pub(crate) const VK_CLOSE: usize = 4; pub(crate) const VK_RECORD: usize = 5; pub(crate) const VK_ENABLED: usize = 6; pub(crate) const VK_REGISTER: usize = 7; pub(crate) const VK_IDCHANGE: usize = 8; pub(crate) const VK_FOLLOWS: usize = 9;
 macro_rules! vz { () => { VAtomicUsize::new(0) }; }
-pub(crate) static VSEEN: [[VAtomicUsize; 10]; 3] = [[vz!(), vz!(), vz!(), vz!(), vz!(), vz!(), vz!(), vz!(), vz!(), vz!()], [vz!(), vz!(), vz!(), vz!(), vz!(), vz!(), vz!(), vz!(), vz!(), vz!()], [vz!(), vz!(), vz!(), vz!(), vz!(), vz!(), vz!(), vz!(), vz!(), vz!()]];
+vstatic!(pub(crate) VSEEN: [[VAtomicUsize; 10]; 3] = [[vz!(), vz!(), vz!(), vz!(), vz!(), vz!(), vz!(), vz!(), vz!(), vz!()], [vz!(), vz!(), vz!(), vz!(), vz!(), vz!(), vz!(), vz!(), vz!(), vz!()], [vz!(), vz!(), vz!(), vz!(), vz!(), vz!(), vz!(), vz!(), vz!(), vz!()]]);
 pub(crate) fn vseen(i: usize, k: usize) -> usize { VSEEN[i][k].load(VSeq) }
 pub(crate) struct VRec { pub(crate) i: usize, pub(crate) global_enabled: bool, pub(crate) interest: u8, pub(crate) hint: u8 }
 impl VRec { pub(crate) fn plain(i: usize) -> VRec { VRec { i, global_enabled: true, interest: 2, hint: 6 } } }
